@@ -367,7 +367,9 @@ T("C18", "twin-new-table-row", "version.py", "    0x674E0D17: \"Cobalt Strike 4.
 
 # =============================================================================== C20
 M("C20", "xor-identity-on-first-zero", "utils.py", "    if sum(key) == 0:\n        return data", "    if not key or key[0] == 0:\n        return data", "C20.R1")
-M("C20", "xor-size-of-key", "utils.py", "    return int.to_bytes(int.from_bytes(data, \"little\") ^ int.from_bytes(key, \"little\"), size, \"little\")", "    return int.to_bytes(int.from_bytes(data, \"little\") ^ int.from_bytes(key, \"little\"), len(key), \"little\")", "C20.R1")
+# (the former mutant "xor-size-of-key": to_bytes(.., len(key), ..) was an EQUIVALENT change - after `key = key[:size]` of a tiled
+#  non-zero key len(key) == size - and is now a twin; the truly breaking forms are in selftest/extra/c20.py)
+T("C20", "twin-xor-size-of-cut-key", "utils.py", "    return int.to_bytes(int.from_bytes(data, \"little\") ^ int.from_bytes(key, \"little\"), size, \"little\")", "    return int.to_bytes(int.from_bytes(data, \"little\") ^ int.from_bytes(key, \"little\"), len(key), \"little\")")
 M("C20", "xor-key-not-cut", "utils.py", "    key = key[:size]\n", "", "C20.R1")
 M("C20", "xor-mixed-endian", "utils.py", "int.from_bytes(key, \"little\"), size, \"little\")", "int.from_bytes(key, \"big\"), size, \"little\")", "C20.R1")
 M("C20", "u32be-no-byteorder", "utils.py", "u32be = partial(unpack, size=4, byteorder=\"big\")", "u32be = partial(unpack, size=4)", "C20.R2")
